@@ -950,7 +950,8 @@ public:
 				continue;
 			}
 
-			if (from[ii++] != default_assignment_separator || sz < (ii + val_sz))
+			// the value is val_sz bytes long and must be followed by the field separator
+			if (from[ii++] != default_assignment_separator || sz < (ii + val_sz + 1) || from[ii + val_sz] != default_field_separator)
 				break;
 
 			*tag = 0;
